@@ -169,6 +169,8 @@ package compile
 //@   ensures result == feat_on(c.featuresChecker, feature)
 // A feature is valid iff it is switched on and every feature named by its if-feature statements is valid, each
 // resolved (and its own dependencies resolved in turn) in the module that getModuleAndReference reports for it.
+// featTree holds the features on the chain of if-features being followed: meeting one of them again is a cycle; on
+// return the chain is what it was (a feature reached along two paths is not a cycle).
 //@ define iffs(n, k) = node_child_of(n, parse.NodeIfFeature, k)
 //@ define depsValid(chk, m, n, hi) = forall(k, 0, hi, feat_valid(chk, ref_mod(m, iffs(n, k), parse.NodeFeature), ref_node(m, iffs(n, k), parse.NodeFeature)))
 //@ axiom featValidDef = forallof(chk, FeaturesChecker, forallof(m, parse.Node, forallof(n, parse.Node, feat_valid(chk, m, n) ==
@@ -181,10 +183,10 @@ package compile
 //@   preserves c.verifiedFeatures.features
 //@   preserves c.verifiedFeatures.features
 //@   ensures !old(inmap(featTree, featKey(m, n)))
-//@   ensures inmap(featTree, featKey(m, n)) && forallstr(k, implies(old(inmap(featTree, k)), inmap(featTree, k)))
+//@   ensures forallstr(k, inmap(featTree, k) == old(inmap(featTree, k)))
 //@   ensures result == feat_valid(old(c.featuresChecker), m, n)
 //@   callsite inmap(featTree, featKey(m, n))
-//@   loop 0 invariant inmap(featTree, featKey(m, n)) && forallstr(k, implies(old(inmap(featTree, k)), inmap(featTree, k)))
+//@   loop 0 invariant inmap(featTree, featKey(m, n)) && forallstr(k, implies(k != featKey(m, n), inmap(featTree, k) == old(inmap(featTree, k))))
 //@   loop 0 invariant c.featuresChecker == old(c.featuresChecker) && c.verifiedFeatures.features == old(c.verifiedFeatures.features)
 //@   loop 0 invariant len(looprange) == node_nchildren_of(n, parse.NodeIfFeature) && forall(i, 0, len(looprange), looprange[i] == iffs(n, i) && looprange[i] != nil)
 //@   loop 0 invariant enabled == (feat_on(old(c.featuresChecker), featKey(m, n)) && depsValid(old(c.featuresChecker), m, n, loopidx+1))
